@@ -1449,6 +1449,10 @@ def str_method(I, s, name, args, kwargs):
         if len(args) > 2:
             raise Unsupported('find with end')
         r = z3.IndexOf(s, sub, start)
+        if len(args) > 1:
+            # a start beyond the end finds nothing, not even the empty string
+            raw = as_int(_unopt(I, args[1])) if not isinstance(args[1], VNone) else z3.IntVal(0)
+            r = z3.If(raw > n, z3.IntVal(-1), r)
         if name == 'index':
             if I.spec_mode == 0 and not I.decide(r >= 0, 'index-found'):
                 raise Raised(VExc(ValueError, [VStr('substring not found')]))
@@ -1463,7 +1467,8 @@ def str_method(I, s, name, args, kwargs):
         sl = z3.Length(sub)
         I.assume(z3.Or(r == -1, z3.And(r >= 0, r + sl <= n)))
         I.assume((r == -1) == z3.Not(z3.Contains(s, sub)))
-        I.assume(z3.Implies(r >= 0, z3.And(
+        I.assume(z3.Implies(sl == 0, r == n))
+        I.assume(z3.Implies(z3.And(r >= 0, sl > 0), z3.And(
             z3.SubString(s, r, sl) == sub,
             z3.Not(z3.Contains(z3.SubString(s, r + 1, n - r - 1), sub)))))
         return VInt(r)
